@@ -184,7 +184,7 @@ void case_random(Ctx &c) {
 
 Registrar reg(Prop{
     "C18",
-    "Cases: identity values incl. 0 and FFFFFFFFh; operation sequences over a 75-letter abstract alphabet: switch-state-global {waiting, configuration}, the four selective frames x {match, +1, -1, unrelated}, configure node-id {1,127,128,255,0}, configure bit timing {table 0 valid index, undefined index 5, index 10, table 1}, store (application reports success / failure), "
+    "Cases: identity values incl. 0 and FFFFFFFFh; operation sequences over a 75-letter abstract alphabet: switch-state-global {waiting, configuration}, the four selective frames x {match, +1, -1, unrelated}, configure node-id {1,127,128,255,0}, configure bit timing {table 0 valid index, undefined index 5, index 10, table 1}, store (application reports success / failure with CO_ERR_LSS_STORE or another error code), "
     "the five inquiries, the six identify frames x {match/boundary -1/+1, unrelated}, identify-non-configured, an unknown specifier, NMT reset communication, and 22 macro letters (a complete 4-step selective or 6-step identify sequence with at most one argument perturbed to match-1 / match+1): enumerated exhaustively to depth 3 (4 in thorough) and randomly up to 100 ops with random identities, node ids (incl. 255), arbitrary arguments/DLC and NMT state changes. "
     "Oracle: set-of-states reference FSM (8 admissible readings: mismatch restarts the sequence or keeps the position x shared or independent selective/identify positions x a completed sequence resets or keeps its position; a reading is dropped when it disagrees, the check fails when none is left): LSS mode, single answer frame on 7E4h with echoed cs and documented error code / inquired value, services ignored in waiting state, COLssStore arguments, never forwarded, node id (boot-up identifier) and bit rate after reset communication equal the stored configuration. "
     "Non-trivial: configuration state reached via the selective path, or a successful store followed by a reset. Distinct = distinct decoded choice sequence.",
